@@ -102,7 +102,10 @@ def run(tier, seed):
     nscripts = 12 if tier == "quick" else 150
     corpus = [[("reset", 10), ("sleep", 100), ("reset", 10), ("recv", 0), ("sleep", 100), ("recv", 0), ("stop", 0)],
               [("reset", 10), ("sleep", 100), ("recv", 0), ("reset", 12), ("reset", 9), ("stop", 0), ("recv", 0)],
-              [("reset", 10), ("stop", 0), ("sleep", 100), ("recv", 0), ("reset", 8), ("sleep", 100), ("reset", 8), ("sleep", 100), ("recv", 0), ("recv", 0)]]
+              [("reset", 10), ("stop", 0), ("sleep", 100), ("recv", 0), ("reset", 8), ("sleep", 100), ("reset", 8), ("sleep", 100), ("recv", 0), ("recv", 0)],
+              # a Timer whose expiry was read is stopped and recycled through NewTimer: nothing of its past may show
+              [("reset", 10), ("sleep", 100), ("recv", 0), ("stop", 0), ("reset", 10), ("sleep", 100), ("reset", 3000), ("recv", 0), ("sleep", 100), ("recv", 0), ("stop", 0)],
+              [("reset", 9), ("sleep", 100), ("recv", 0), ("stop", 0), ("reset", 9), ("sleep", 100), ("recv", 0), ("stop", 0), ("reset", 9), ("sleep", 100), ("reset", 3000), ("recv", 0), ("stop", 0)]]
     scripts = corpus + [gen_timer_script(rng, rng.range(4, 12)) for _ in range(nscripts)]
     for ops in scripts:
         r = impl.call("timer", Ops=[{"K": k, "Ms": ms} for k, ms in ops])
